@@ -53,25 +53,25 @@ class Reader:
         s.skip_ws()
         if s.eof(): raise JsonErr('EOF while parsing a value')
         c = s.peek()
-        if is_ch(ex, c, 'n'): s.lit('null'); return mk_enum('Variable', 'Null', [])
-        if is_ch(ex, c, 't'): s.lit('true'); return mk_enum('Variable', 'Bool', [Bool(True)])
-        if is_ch(ex, c, 'f'): s.lit('false'); return mk_enum('Variable', 'Bool', [Bool(False)])
-        if is_ch(ex, c, '"'): return mk_enum('Variable', 'String', [StrV(s.string())])
+        if is_ch(ex, c, 'n'): s.lit('null'); return ('null',)
+        if is_ch(ex, c, 't'): s.lit('true'); return ('bool', True)
+        if is_ch(ex, c, 'f'): s.lit('false'); return ('bool', False)
+        if is_ch(ex, c, '"'): return ('str', s.string())
         if is_ch(ex, c, '['):
             s.i += 1; items = []
             s.skip_ws()
-            if not s.eof() and is_ch(ex, s.peek(), ']'): s.i += 1; return mk_enum('Variable', 'Array', [VecV([])])
+            if not s.eof() and is_ch(ex, s.peek(), ']'): s.i += 1; return ('arr', [])
             while True:
-                items.append(Cell(Ptr(Cell(s.value(depth + 1)), 'rc')))
+                items.append(s.value(depth + 1))
                 s.skip_ws()
                 if s.eof(): raise JsonErr('EOF while parsing a list')
                 if is_ch(ex, s.peek(), ','): s.i += 1; continue
-                if is_ch(ex, s.peek(), ']'): s.i += 1; return mk_enum('Variable', 'Array', [VecV(items)])
+                if is_ch(ex, s.peek(), ']'): s.i += 1; return ('arr', items)
                 raise JsonErr('expected `,` or `]`')
         if is_ch(ex, c, '{'):
-            s.i += 1; mp = MapV()
+            s.i += 1; pairs = []
             s.skip_ws()
-            if not s.eof() and is_ch(ex, s.peek(), '}'): s.i += 1; return mk_enum('Variable', 'Object', [mp])
+            if not s.eof() and is_ch(ex, s.peek(), '}'): s.i += 1; return ('obj', pairs)
             while True:
                 s.skip_ws()
                 if s.eof() or not is_ch(ex, s.peek(), '"'): raise JsonErr('key must be a string')
@@ -86,13 +86,13 @@ class Reader:
                 s.skip_ws()
                 if s.eof() or not is_ch(ex, s.peek(), ':'): raise JsonErr('expected `:`')
                 s.i += 1
-                mp.d[''.join(key)] = Cell(Ptr(Cell(s.value(depth + 1)), 'rc'))
+                pairs.append((''.join(key), s.value(depth + 1)))
                 s.skip_ws()
                 if s.eof(): raise JsonErr('EOF while parsing an object')
                 if is_ch(ex, s.peek(), ','): s.i += 1; continue
-                if is_ch(ex, s.peek(), '}'): s.i += 1; return mk_enum('Variable', 'Object', [mp])
+                if is_ch(ex, s.peek(), '}'): s.i += 1; return ('obj', pairs)
                 raise JsonErr('expected `,` or `}`')
-        if is_ch(ex, c, '-') or in_range(ex, c, '0', '9'): return mk_enum('Variable', 'Number', [s.number()])
+        if is_ch(ex, c, '-') or in_range(ex, c, '0', '9'): return ('num', s.number())
         raise JsonErr('expected value')
     def hex4(s):
         v = 0
@@ -194,8 +194,19 @@ class Reader:
             return NumberV('neg', Int(z3.simplify(-acc), 'i64'))
         return NumberV('pos', Int(acc, 'u64'))
 
-def parse_json(ex, chars):
-    """returns ('ok', Variable Agg) or ('err', message)"""
+def build(t):
+    """JSON tree -> Variable value, directly (RFC 8259 object semantics with the last duplicate key winning, as serde_json documents for maps)"""
+    k = t[0]
+    if k == 'null': return mk_enum('Variable', 'Null', [])
+    if k == 'bool': return mk_enum('Variable', 'Bool', [Bool(t[1])])
+    if k == 'str': return mk_enum('Variable', 'String', [StrV(t[1])])
+    if k == 'num': return mk_enum('Variable', 'Number', [t[1]])
+    if k == 'arr': return mk_enum('Variable', 'Array', [VecV([Cell(Ptr(Cell(build(x)), 'rc')) for x in t[1]])])
+    mp = MapV()
+    for kk, vv in t[1]: mp.d[kk] = Cell(Ptr(Cell(build(vv)), 'rc'))
+    return mk_enum('Variable', 'Object', [mp])
+def parse_tree(ex, chars):
+    """returns ('ok', tree) or ('err', message); trees keep duplicate object keys in text order"""
     r = Reader(ex, chars)
     try:
         v = r.value()
@@ -204,3 +215,7 @@ def parse_json(ex, chars):
         return ('ok', v)
     except JsonErr as e:
         return ('err', str(e))
+def parse_json(ex, chars):
+    """returns ('ok', Variable Agg) or ('err', message) -- the value the JSON text denotes (reference side)"""
+    k, v = parse_tree(ex, chars)
+    return (k, build(v)) if k == 'ok' else (k, v)
